@@ -1,12 +1,16 @@
 #!/bin/sh
-# usage: tools/trymutant.sh <patch> <Cnn>   applies the patch to /repo, runs the check, restores /repo, prints replay summaries
+# usage: tools/trymutant.sh <patch> <Cnn>   applies the patch to a scratch copy of /repo (outside /repo and /verif), runs the
+# property's check on that copy, removes the copy, prints replay summaries. /repo itself is not touched.
 set -e
-p=$(realpath $1); cd /repo; patch -p1 -s --no-backup-if-mismatch < $p; cd /verif
-bin/govc check $2 2>&1 | grep "VIOLATION\|govc:\|KNOWN" || true
-cd /repo; git checkout -- . ; cd /verif
-python3 - $2 <<'PY'
+p=$(realpath $1); prop=$2
+s=${VERIF_SCRATCH:-/var/tmp/verif-scratch}/try-$$; rm -rf $s; mkdir -p $s
+rsync -a --exclude .git /repo/ $s/repo/
+patch -p1 -s --no-backup-if-mismatch -d $s/repo -i $p
+cd /verif
+bin/govc check $prop --repo $s/repo --verif /verif --out $s/out 2>&1 | grep "VIOLATION\|govc:\|KNOWN\|UNDECIDED" || true
+python3 - $s/out/replays/$prop <<'PY'
 import json,glob,sys
-for f in sorted(glob.glob('/verif/replays/%s/*.json'%sys.argv[1])):
-    d=json.load(open(f)); print(d['obligation']); print('   ',{k:d.get(k) for k in ['failing_input_found','refutation_status','replay_note','model','replay_outcome']})
-    if d.get('replay_outcome') in ('error',): print(d.get('replay_output','')[:1500])
+for f in sorted(glob.glob(sys.argv[1]+'/*.json')):
+    d=json.load(open(f)); print(d['obligation']); print('   ',{k:d.get(k) for k in ['failing_input_found','refutation_status','replay_note','replay_outcome']})
 PY
+rm -rf $s
